@@ -295,6 +295,32 @@ func verif_hmMatch(tr tableReader, addrs []hasRecord) bool {
 		tr.prefixes[gj] == addrs[gk].prefix && verif_idxSfx(tr.idx, uint32(gj), addrs[gk].a)
 }
 
+// verif_jrOff .. verif_jrDictLen: the journal range the range index records for an address, field by field
+// (uninterpreted: functions of the two maps and the address).
+func verif_jrOff(novel map[hash.Hash]Range, cached map[addr16]Range, h hash.Hash) uint64 {
+	r, _ := rangeIndex{novel: novel, cached: cached}.get(h)
+	return r.Offset
+}
+func verif_jrLen(novel map[hash.Hash]Range, cached map[addr16]Range, h hash.Hash) uint32 {
+	r, _ := rangeIndex{novel: novel, cached: cached}.get(h)
+	return r.Length
+}
+func verif_jrDictOff(novel map[hash.Hash]Range, cached map[addr16]Range, h hash.Hash) uint64 {
+	r, _ := rangeIndex{novel: novel, cached: cached}.get(h)
+	return r.DictOffset
+}
+func verif_jrDictLen(novel map[hash.Hash]Range, cached map[addr16]Range, h hash.Hash) uint32 {
+	r, _ := rangeIndex{novel: novel, cached: cached}.get(h)
+	return r.DictLength
+}
+
+// verif_foMatch: index entry tGJ of |tr| holds the address of read request tGK of |reqs|.
+func verif_foMatch(tr tableReader, reqs []getRecord) bool {
+	gk, gj := verif_ghost.tGK, verif_ghost.tGJ
+	return 0 <= gk && gk < len(reqs) && 0 <= gj && gj < len(tr.prefixes) &&
+		tr.prefixes[gj] == reqs[gk].prefix && verif_idxSfx(tr.idx, uint32(gj), reqs[gk].a)
+}
+
 func verif_x_tableIndex_indexEntry(ti tableIndex, idx uint32, a *hash.Hash) (entry indexEntry, err error) {
 	return ti.indexEntry(idx, a)
 }
